@@ -25,4 +25,5 @@ func init() {
 	register("C17", "exploration", C17)
 	register("C01", "exploration", C01)
 	register("C02", "exploration", C02)
+	register("C09", "exploration", C09)
 }
